@@ -7,6 +7,11 @@
    number formatting (`str(c)` is described per coefficient type by a `cshow` record: which tokens
    it lexes to, and the verdict of `float(c) >= 0`).  numpy's array brackets are outside the model
    (array2string is called with formatter str on the per-element strings).
+   For an array, to_string recurses over the first axis (`for poly_ in poly`), i.e. prints the
+   cleaned 0-d element polynomials; the model prints element i from the array's own term list,
+   skipping its zero coefficients.  Both give the same text when the exponent rows are pairwise
+   distinct (the sorted order of a sub-list is the sub-list of the sorted order); the correspondence
+   check compares them on arrays of every shape.
    Assumed: numpy print options at their defaults (suppress=False, so the
    `suppress_small and abs(c) < 10**-precision` skip never fires); names are non-empty strings. *)
 From mathcomp Require Import all_ssreflect all_algebra.
@@ -215,12 +220,12 @@ Section ListAlg.
 Variable R : comRingType.
 Definition lterm := (seq (nat * nat) * R)%type.    (* (variable, exponent) factors as printed; coefficient *)
 
-Definition lalg : alg R (seq lterm) :=
-  Alg [::] [:: ([::], 1)] cat
-      (fun a b => [seq (x.1 ++ y.1, x.2 * y.2) | x <- a, y <- b])
-      (map (fun x : lterm => (x.1, - x.2)))
-      (fun c => [:: ([::], c)])
-      (fun k e => [:: ([:: (k, e)], 1)]).
+Definition lone : seq lterm := [:: ([::], 1)].
+Definition lmul (a b : seq lterm) : seq lterm := [seq (x.1 ++ y.1, x.2 * y.2) | x <- a, y <- b].
+Definition lopp (a : seq lterm) : seq lterm := [seq (x.1, - x.2) | x <- a].
+Definition linj (c : R) : seq lterm := [:: ([::], c)].
+Definition lvar (k e : nat) : seq lterm := [:: ([:: (k, e)], 1)].
+Definition lalg : alg R (seq lterm) := Alg [::] lone cat lmul lopp linj lvar.
 
 Definition parse_terms (ts : seq (tok R)) : option (seq lterm) := eval_tokens lalg ts.
 
@@ -238,10 +243,6 @@ Definition terms_norm (ts : seq lterm) : seq (mono * R) :=
 (* the text denotes element i of p (as canonical forms) *)
 Definition denotes (ts : seq (tok R)) (p : parr R) (i : nat) : bool :=
   if parse_terms ts is Some l then perm_eq (terms_norm l) (canon p i) else false.
-
-(* the printed (monomial, coefficient) pairs in printed order; None if the text is not in the grammar *)
-Definition printed_terms (ts : seq (tok R)) : option (seq (mono * R)) :=
-  omap (map (fun t : lterm => (mono_norm t.1, t.2))) (parse_terms ts).
 
 Definition tok_eqb (a b : tok R) : bool :=
   match a, b with
